@@ -103,6 +103,8 @@ def bound_text(tier, seed):
 # helpers
 
 def enc(v):
+    if v is None:
+        return None
     v = float(v)
     if math.isnan(v):
         return None
@@ -458,18 +460,24 @@ def check_corr(ctx, M, spec, T, io, ens, variants=CORR_VARIANTS, excludenull=Fal
     tn = tlabel(spec)
     p = len(ens[0])
     case = {"kind": "corr", "trans": spec, "obs": encl(io.vals), "ens": [encl(r) for r in ens]}
-    e2 = np.array(ens, dtype=np.float64)
+    e2 = np.array([[NAN if v is None else v for v in r] for r in ens], dtype=np.float64)
     te = np.asarray(T.forward(e2.copy()), dtype=np.float64)
-    if not io.ok or not np.all(np.isfinite(te)) or te.shape != e2.shape:
+    hasnan = bool(np.isnan(e2).any())
+    # missing members (NaN given by the caller) are skipped by the ensemble statistic; every row must keep
+    # at least one valid member and every valid member must transform to a finite value
+    if not io.ok or te.shape != e2.shape or not np.all(np.isfinite(te[~np.isnan(e2)])) \
+            or not np.all(np.isfinite(te).sum(axis=1) >= 1):
         ctx.count("unjudged.forward_nonfinite")
         ctx.case(False)
         return
+    if hasnan:
+        ctx.count("corr.ensembles_with_missing_members")
     deg = degenerate(io.st) or degenerate(io.straw)
-    rows = [[Fraction(float(v)) for v in r] for r in te]
+    rows = [[Fraction(float(v)) for v in r if math.isfinite(v)] for r in te]
     arg = e2[:, 0].copy() if p == 1 else e2
-    perfect = all(len(set(r)) == 1 and r[0] == o for r, o in zip(ens, io.vals))
+    perfect = (not hasnan) and all(len(set(r)) == 1 and r[0] == o for r, o in zip(ens, io.vals))
     for ctype, stat in variants:
-        score = "corr:%s:%s" % (ctype, stat)
+        score = "corr:%s:%s" % (ctype, stat) + (":missing-members" if hasnan else "")
         try:
             v = float(M.corr(io.x.copy(), arg.copy(), T, excludenull=excludenull, stat=stat, type=ctype))
         except Exception as e:
@@ -781,6 +789,10 @@ def units(tier, seed):
                 for a in range(3):
                     for b in range(3):
                         us.append({"kind": "corr", "t": ti, "n": 3, "p": 2, "oidx": SUB3, "eidx": SUB3, "prefix": [a, b]})
+        # ---- corr with missing ensemble members (n=3, p=3, one NaN member; thorough: also two)
+        if not quick or ti in (1, 4):
+            for a in range(3):
+                us.append({"kind": "corrnan", "t": ti, "n": 3, "p": 3, "oidx": SUB3, "eidx": SUB2, "prefix": [a], "tier": tier})
         # ---- null
         fin, nul = null_letters(spec, tier, ti)
         nl = len(fin) + len(nul)
@@ -872,6 +884,32 @@ def run_corr_unit(unit, ctx, M, tl):
             check_corr(ctx, M, spec, T, io, ens)
 
 
+def run_corrnan_unit(unit, ctx, M, tl):
+    spec = tl[unit["t"]]
+    T = build_trans(spec)
+    n, p = unit["n"], unit["p"]
+    oalpha = shifted(spec, unit["oidx"])
+    ealpha = shifted(spec, unit["eidx"])
+    quick = unit["tier"] == "quick"
+    pos1 = [(0, 0), (1, 1)] if quick else [(i, j) for i in range(n) for j in range(p)]
+    holes = [[h] for h in pos1]
+    if not quick:
+        holes += [[a, b] for a in pos1 for b in pos1 if a < b and a[0] != b[0]]
+    first = True
+    for o in series_with_prefix(oalpha, n, unit["prefix"]):
+        io = info_of(T, o)
+        for flat in itertools.product(ealpha, repeat=n * p):
+            base = [list(flat[i * p:(i + 1) * p]) for i in range(n)]
+            for hs in holes:
+                ens = [list(r) for r in base]
+                for (i, j) in hs:
+                    ens[i][j] = None
+                if first:
+                    ctx.case(False, n=0, sample={"kind": "corr", "trans": spec, "obs": encl(io.vals), "ens": ens})
+                    first = False
+                check_corr(ctx, M, spec, T, io, ens)
+
+
 def run_null_unit(unit, ctx, M, tl):
     ti = unit["t"]
     spec = tl[ti]
@@ -956,6 +994,8 @@ def run_unit(unit, ctx):
         run_det_unit(unit, ctx, M, tl)
     elif k == "corr":
         run_corr_unit(unit, ctx, M, tl)
+    elif k == "corrnan":
+        run_corrnan_unit(unit, ctx, M, tl)
     elif k == "null":
         run_null_unit(unit, ctx, M, tl)
     elif k == "cm":
